@@ -91,7 +91,7 @@ def onStartProcessing (c : Clock α) : Clock α :=
   let c3 := if c.cmds.reset then c2.reset else c2
   updateShared { c3 with cmds := ClockCmds.empty }
 
-/-- mirrors: the tick counting of clock.rs::Clock::update,
+/-- mirrors: clock.rs::Clock::update (the tick counting),
     `if *tick_timer >= 1.0 { let whole_ticks = tick_timer.floor();
        *tick_timer = if whole_ticks.is_finite() { *tick_timer - whole_ticks } else { 0.0 };
        *ticks = ticks.saturating_add(whole_ticks as u64); }`
